@@ -156,6 +156,11 @@ def run(W, cfg):
                                   lambda i, j: wr[0] <= i <= wr[1] and wc[0] <= j <= wc[1] and bb2[0] <= i <= bb2[1] and bb2[2] <= j <= bb2[3])
         third = lt.propagate_dft(w, pixelscale=du_arg, oversample=os, mask=omask, **kw)
         W.ob('field, the mask array refilled in place with another window', third.field, W.array(want2))
+    # the array handed out by .field is the caller's to edit: a later read of the wavefront is unaffected
+    mine = out.field
+    first_read = mine.copy()
+    mine *= 2
+    W.ob('field read again after the caller scaled the array it was given', out.field, first_read)
     W.ob('wavelength', out.wavelength, lam)
     W.ob('focal_length', out.focal_length, f)
     W.ob('pixelscale', [out.pixelscale[0], out.pixelscale[1]], [du[0] / os, du[1] / os])
